@@ -19,6 +19,7 @@ FLAVOURS = {
     'C13': ['lock', 'lock', 'lock', 'schedule', 'control'],
     'C14': ['control', 'control', 'lock', 'control', 'schedule'],
     'C16': ['stop', 'stop', 'stop', 'schedule', 'control'],
+    'C15': ['rules', 'rules', 'control', 'rules', 'control'],
 }
 # which first-differing-field codes concern which property (see coq/SolverCorr.v, row_code / case_code)
 CODES = {
@@ -30,6 +31,7 @@ CODES = {
     'C13': {3, 4, 23, 24, 10},
     'C14': {8},
     'C16': {11},
+    'C15': {8},
 }
 ERR_KEYWORDS = {
     'C01': ['angular_position', 'angular_speed', 'angular_acceleration', 'transmit'],
@@ -40,6 +42,7 @@ ERR_KEYWORDS = {
     'C13': ['locked', 'angular_speed', 'angular_acceleration'],
     'C14': ['pwm', 'apply_rules', 'rule'],
     'C16': ['check_condition', 'stop', 'operator', 'sensor', 'get_value'],
+    'C15': ['apply', 'rule', 'timer', 'is_active', 'static_error', 'pwm_min', 'get_value'],
 }
 RULE = {
     'C01': 'non-trivial = >= 3 elements, >= 2 recorded instants, some ratio != 1, non-zero motion',
@@ -50,6 +53,7 @@ RULE = {
     'C13': 'non-trivial = self-locking train whose per-instant held/not-held history is not constant',
     'C14': 'non-trivial = >= 1 rule applicable at some instant (recorded duty cycle != 1) or a two-rule conflict',
     'C16': 'non-trivial = run that stopped before the full duration',
+    'C15': 'non-trivial = controlled run in which a rule is applicable at >= 1 instant and not applicable at >= 1 instant',
 }
 
 
@@ -78,6 +82,8 @@ def is_nontrivial(pid, sc, res):
         return res['static']['selflock'] and any(h) and not all(h)
     if pid == 'C14':
         return any(r['pwm'] != 1 for r in rows)
+    if pid == 'C15':
+        return any(r['pwm'] != 1 for r in rows) and any(r['pwm'] == 1 for r in rows)
     if pid == 'C16':
         for op, mlen in zip(sc['ops'], res['marks']):
             if op[0] == 'run' and op[4] is not None:
@@ -277,6 +283,8 @@ def search(pid, tier, seed, escalate, hints):
                     out += O.c16_check(sc, r)
                 elif pid == 'C14':
                     out += O.c14_check(sc, r)
+                elif pid == 'C15':
+                    out += O.c15_check(sc, r)
             except Exception:  # noqa
                 out.append(O.W('oracle-crash', 'the oracle could not read the recorded history: ' + traceback.format_exc()[-600:], sc))
         if pid == 'C12' and n_checked <= (40 if tier == 'quick' else 500) * (3 if escalate else 1):
@@ -314,6 +322,8 @@ def replay(pid, path):
             ws = O.c16_check(sc, r)
         elif pid == 'C14':
             ws = O.c14_check(sc, r)
+        elif pid == 'C15':
+            ws = O.c15_check(sc, r)
     if pid == 'C12':
         ws = O.c12_check(sc, random.Random(0))
     if ws:
